@@ -152,7 +152,7 @@ class C01(CreateProp):
         ]
 
     def cases(self, tier, rng):
-        cl = ["C01.list", "C01.pieces", "C01.plen", "C01.name"]
+        cl = ["C01.list", "C01.pieces", "C01.plen", "C01.name", "M01.impl"]
         out = []
         for n, (sh, sizes, P) in enumerate(gen_trees(tier, rng, plens(tier), 260, 4000)):
             creator = "TorrentFile" if n % 4 else "cli"
@@ -269,7 +269,7 @@ class C10(CreateProp):
             for s in alphabet(P) + more:
                 if s > 0:
                     out.append({"op": "hashers", "size": s, "P": P, "group": "none",
-                                "clauses": ["C10.hashers", "C10.steps"]})
+                                "clauses": ["C10.hashers", "C10.steps", "M10.impl"]})
         return out
 
     def signature(self, case, rec, clause):
